@@ -5,7 +5,10 @@ from .vals import Shape
 
 class LoopSpec:
     def __init__(self, invariant=(), modifies=(), decreases=None, unroll=False, index=None, assume=(),
-                 body_ensures=()):
+                 body_ensures=(), roles=None):
+        # contract name -> role of a loop-local variable ("target": the for-loop variable, "acc": the one local whose
+        # new value is computed from its old value in the body); used when a clean-up has renamed the local
+        self.roles = dict(roles or {})
         self.body_ensures = list(body_ensures)   # clauses about ONE iteration (trace helpers see only its events)
         self.assume = list(assume)      # definitional unfoldings of spec functions, assumed at the loop head
         self.invariant = list(invariant)
@@ -91,6 +94,7 @@ class ClassSpec:
 class ContractSet:
     def __init__(self, pid, title=""):
         self.pid = pid
+        self.replay_pid = pid       # replay/<replay_pid>.py holds the native helper twins (kept when pid is re-labelled)
         self.title = title
         self.classes = {}
         self.fns = {}
